@@ -164,6 +164,24 @@ fn under(p: *const c_char, which: usize) -> bool {
     let r = if which == 0 { &g.0 } else { &g.1 };
     !r.is_empty() && b.starts_with(r)
 }
+// ---- lock probe at the system-call layer: is the pending_intents mutex held at the very moment a blob leaves cas/ ?
+#[cfg(test)]
+static PROBE_ON: AtomicUsize = AtomicUsize::new(0);
+#[cfg(test)]
+static PROBE_CALLS: AtomicUsize = AtomicUsize::new(0);
+#[cfg(test)]
+static PROBE_UNLOCKED: AtomicUsize = AtomicUsize::new(0);
+#[cfg(test)]
+fn probe_blob_leaves_cas() {
+    if PROBE_ON.load(Ordering::Relaxed) == 0 || role().is_none() { return; }
+    use parking_lot::lock_api::RawMutex as _;
+    let a = ADDR_INTENTS.load(Ordering::Relaxed);
+    if a == 0 { return; }
+    let raw = unsafe { &*(a as *const parking_lot::RawMutex) };
+    PROBE_CALLS.fetch_add(1, Ordering::SeqCst);
+    if !raw.is_locked() { PROBE_UNLOCKED.fetch_add(1, Ordering::SeqCst); }
+}
+
 #[cfg(test)]
 fn fs_call(kind: Option<&'static str>, f: impl FnOnce() -> c_int) -> c_int {
     let Some(k) = kind else { return f() };
@@ -181,6 +199,7 @@ pub unsafe extern "C" fn rename(old: *const c_char, new: *const c_char) -> c_int
     let f: extern "C" fn(*const c_char, *const c_char) -> c_int = unsafe { std::mem::transmute(real(b"rename\0", &R)) };
     if FAULT_ON.load(Ordering::Relaxed) != 0 && plan_hit("rename", path_class(cbytes(old))) { return eio(); }
     let kind = if under(new, 0) { Some("rename:staging") } else if under(old, 0) { Some("rename:cas") } else { None };
+    if under(old, 0) && !under(new, 0) { probe_blob_leaves_cas(); }
     fs_call(kind, || f(old, new))
 }
 #[cfg(test)]
@@ -190,6 +209,7 @@ pub unsafe extern "C" fn unlink(p: *const c_char) -> c_int {
     let f: extern "C" fn(*const c_char) -> c_int = unsafe { std::mem::transmute(real(b"unlink\0", &R)) };
     if FAULT_ON.load(Ordering::Relaxed) != 0 && plan_hit("unlink", path_class(cbytes(p))) { return eio(); }
     let kind = if under(p, 0) { Some("unlink:cas") } else if under(p, 1) { Some("unlink:staging") } else { None };
+    if under(p, 0) { probe_blob_leaves_cas(); }
     fs_call(kind, || f(p))
 }
 #[cfg(test)]
@@ -626,4 +646,56 @@ fn replay_faultplan() {
     }
     for f in &failures { println!("GATED-REPLAY: {f}"); }
     assert!(failures.is_empty(), "{}", failures.join("; "));
+}
+
+
+// Lock probe for the orphan clean-up entry points (C04 / C08 discipline "a blob leaves cas/ only while the pending_intents
+// lock is held"): delete_orphans, quarantine_orphans and delete_orphan run on planted orphans; at every unlink / rename of a
+// file under cas/ the interposed libc symbol asks the intents mutex whether it is locked at that very moment.
+#[cfg(test)]
+#[test]
+fn replay_orphan_unlink_probe() {
+    let dir = tempfile::tempdir().unwrap();
+    let cfg = Config { num_ops_per_wal: NonZeroU64::new(10_000).unwrap(), scan_orphans_on_startup: false, ..Default::default() };
+    let cas: Cas<String> = Cas::open(dir.path().join("db"), cfg).unwrap();
+    let plant = |tag: &str| -> BlobHash {
+        let c = format!("orphan-content-{tag}").into_bytes();
+        let h = calculate_blob_hash(&c);
+        let p = cas.paths.cas_file_path(&h);
+        std::fs::create_dir_all(p.parent().unwrap()).unwrap();
+        std::fs::write(&p, &c).unwrap();
+        h
+    };
+    ADDR_INTENTS.store(unsafe { cas.index.pending_intents.raw() } as *const _ as usize, Ordering::SeqCst);
+    {
+        let mut r = ROOTS.lock().unwrap();
+        r.0 = cas.paths.cas_root_path().to_string_lossy().as_bytes().to_vec();
+        r.1 = cas.paths.staging_root_path().to_string_lossy().as_bytes().to_vec();
+    }
+    let scan = || Arc::new(crate::orphan::scan_orphans(cas.as_arc(), cas.as_arc().clone(), false).unwrap());
+    let mut report = Vec::new();
+    let mut run = |name: &str, f: &dyn Fn()| {
+        PROBE_CALLS.store(0, Ordering::SeqCst);
+        PROBE_UNLOCKED.store(0, Ordering::SeqCst);
+        ROLE.with(|r| r.set(Some(0)));
+        PROBE_ON.store(1, Ordering::SeqCst);
+        f();
+        PROBE_ON.store(0, Ordering::SeqCst);
+        ROLE.with(|r| r.set(None));
+        let (n, bad) = (PROBE_CALLS.load(Ordering::SeqCst), PROBE_UNLOCKED.load(Ordering::SeqCst));
+        println!("GATED-REPLAY: {name}: {n} blob(s) left cas/, {bad} of them while pending_intents was NOT locked");
+        if n == 0 { report.push(format!("{name}: the probe saw no blob leave cas/ (probe did not run)")); }
+        if bad > 0 { report.push(format!("{name}: {bad} blob(s) left cas/ while the pending_intents lock was not held")); }
+    };
+    plant("a"); plant("b");
+    let s1 = scan();
+    run("delete_orphans", &|| { let _ = s1.delete_orphans(); });
+    plant("c"); plant("d");
+    let s2 = scan();
+    let q = dir.path().join("quarantine");
+    run("quarantine_orphans", &|| { let _ = s2.quarantine_orphans(&q); });
+    let h = plant("e");
+    let s3 = scan();
+    run("delete_orphan", &|| { let _ = s3.delete_orphan(&h); });
+    assert!(report.is_empty(), "{}", report.join("; "));
 }
